@@ -8,6 +8,8 @@ import Drx.IdxSpec
 import Drx.Codec
 import DrxProofs.Py
 import DrxProofs.Idx
+import DrxProofs.IdxLayouts
+import Drx.Gen.IdxLayouts
 namespace Drx.C17
 open Drx Drx.Idx Drx.IdxSpec
 
@@ -206,6 +208,114 @@ theorem vwcf_roundtrip (s : VwcfSpec) (h : s.valid) : parseVwcf (encVwcf s) = .o
 
 example : (⟨0x045D, 213, 256, 555, 768, 1, 102, 30, List.replicate 9 0, 255, List.replicate 42 7, -1,
     List.replicate 6 0, 5, [1, 2, 3]⟩ : VwcfSpec).valid := by decide
+
+/-! ## (L) the readers of the model ARE the generic reader over the field layouts regenerated from the Python source on every
+    run (offset, width, signedness of every `struct.unpack` / `int(fdata[i])` / `parse_chunk_id` in the six readers), and the
+    control shape of each reader (byte order, loop count expression, entry position, stride, slice bounds, guards) is the one
+    the model implements.  A changed offset / width / signedness / count / stride in the source breaks one of these. -/
+
+theorem key_header_is_generated_layout (o : Order) (d : Bytes) :
+    parseKey o d = Layout.readK o d 0 Gen.IdxLayouts.keyHeader fun
+      | [_, _, nelements] => keyLoop o d (nelements - 1).toNat 12 []
+      | _ => .error .other := parseKey_eq_layout o d
+
+theorem key_entry_is_generated_layout (o : Order) (d : Bytes) (n indx : Nat) (kd : KeyData) :
+    keyLoop o d (n + 1) indx kd = Layout.readK o d indx Gen.IdxLayouts.keyEntry fun
+      | [nfile, cas] => (Riff.parseChunkId d (indx + 8) o).bind fun chunkId =>
+          keyLoop o d n (indx + 12) (if cas > 0 ∧ nfile > 0 then keyInsert kd cas ⟨chunkId, nfile⟩ else kd)
+      | _ => .error .other := keyLoop_succ_eq_layout o d n indx kd
+
+/-- the FourCC of a slot is the four bytes at offset 8, in the file's byte order -/
+theorem key_entry_id_is_generated : Gen.IdxLayouts.keyEntryIds.map (fun f => (f.off, f.width, f.signed)) = [(8, 4, false)] := by decide
+
+theorem cas_slot_is_generated_layout (d : Bytes) (indx : Nat) :
+    casLoop d indx =
+      if d.length ≥ indx + 4 then
+        Layout.readK .be d indx Gen.IdxLayouts.casSlot fun
+          | [v] => (casLoop d (indx + 4)).bind fun vs => .ok (v :: vs)
+          | _ => .error .other
+      else .ok [] := casLoop_eq_layout d indx
+
+theorem lctx_header_is_generated_layout (d : Bytes) :
+    parseLctx d = Layout.readK .be d 0 Gen.IdxLayouts.lctxHeader fun
+      | [_, _, nscripts, _, scrIdx] => lctxLoop d nscripts.toNat scrIdx
+      | _ => .error .other := parseLctx_eq_layout d
+
+theorem lctx_entry_is_generated_layout (d : Bytes) (n indx : Nat) :
+    lctxLoop d (n + 1) (indx : Int) = Layout.readK .be d indx Gen.IdxLayouts.lctxEntry fun
+      | [key, scrfile, _] => (lctxLoop d n ((indx + 12 : Nat) : Int)).bind fun rest => .ok (⟨key.toNat, scrfile⟩ :: rest)
+      | _ => .error .other := lctxLoop_succ_eq_layout d n indx
+
+theorem lnam_header_is_generated_layout (dec : Dec) (d : Bytes) :
+    parseLnam dec d = Layout.readK .be d 0 Gen.IdxLayouts.lnamHeader fun
+      | [_, _, filesize, filesizeCp, _, nnames] =>
+          if filesizeCp ≠ filesize then .error .value else lnamLoop dec d nnames.toNat 20
+      | _ => .error .other := parseLnam_eq_layout dec d
+
+theorem lnam_entry_is_generated_layout (dec : Dec) (d : Bytes) (n indx : Nat) :
+    lnamLoop dec d (n + 1) indx = Layout.readKB .be d indx Gen.IdxLayouts.lnamEntry fun
+      | [nbytes] => (dec (slice d (indx + 1) (indx + 1 + nbytes.toNat))).bind fun name =>
+          (lnamLoop dec d n (indx + 1 + nbytes.toNat)).bind fun rest => .ok (name :: rest)
+      | _ => .error .other := lnamLoop_succ_eq_layout dec d n indx
+
+theorem vwlb_header_is_generated_layout (dec : Dec) (d : Bytes) :
+    parseVwlb dec d = Layout.readK .be d 0 Gen.IdxLayouts.vwlbHeader fun
+      | [nmarkers] => vwlbLoop dec d (2 + 4 * (nmarkers + 1)).toNat nmarkers.toNat 2
+      | _ => .error .other := parseVwlb_eq_layout dec d
+
+theorem vwlb_entry_is_generated_layout (dec : Dec) (d : Bytes) (mnidx n indx : Nat) :
+    vwlbLoop dec d mnidx (n + 1) indx = Layout.readK .be d indx Gen.IdxLayouts.vwlbEntry fun
+      | [frame, nameStart, nameEnd] => (dec (slice d (mnidx + nameStart.toNat) (mnidx + nameEnd.toNat))).bind fun name =>
+          (vwlbLoop dec d mnidx n (indx + 4)).bind fun rest => .ok (⟨name, frame⟩ :: rest)
+      | _ => .error .other := vwlbLoop_succ_eq_layout dec d mnidx n indx
+
+/-- the nine words, the stage-colour byte and the two palette words of vwcf.py, all at the generated positions -/
+theorem vwcf_reader_is_generated_layout (d : Bytes) :
+    parseVwcf d = Layout.readK .be d 0 [Gen.IdxLayouts.vwcfWords.head!] fun
+      | [dataSize] =>
+        if (d.length : Int) ≠ dataSize then .error .value else
+        Layout.readK .be d 0 Gen.IdxLayouts.vwcfWords.tail fun
+          | [version, stageTop, stageLeft, stageBottom, stageRight, castArrayStart, castArrayEnd, currentFrameRate] =>
+            Layout.readKB .be d 0 Gen.IdxLayouts.vwcfBytes fun
+              | [stageColor] =>
+                let cls := versionClass version
+                (match cls with
+                  | .dir4 => Layout.readK .be d 0 Gen.IdxLayouts.vwcfPaletteDir4 fun | [p] => .ok (paletteName p) | _ => .error .other
+                  | .dir5 => Layout.readK .be d 0 Gen.IdxLayouts.vwcfPaletteDir5 fun | [p] => .ok (paletteName p) | _ => .error .other
+                  | _ => .ok "unknonw").bind fun palette =>
+                .ok ⟨cls, stageTop, stageLeft, stageBottom, stageRight, castArrayStart, castArrayEnd, currentFrameRate,
+                     stageColor.toNat, palette⟩
+              | _ => .error .other
+          | _ => .error .other
+      | _ => .error .other := parseVwcf_eq_layout d
+
+/-- `readK` is the coordinator's `Layout.readLayout` in continuation-passing form -/
+theorem readK_is_readLayout (o : Order) (d : Bytes) (base : Nat) (fs : List Layout.Field) (k : List Int → R α) :
+    Layout.readK o d base fs k = (Layout.readLayout o d base fs).bind k := Layout.readK_eq o d base fs k
+
+/-- key.py: byte order taken from the parameter; `for _ in range(<field at 8> - 1)` (F02); entries from 12, 12 bytes apart -/
+theorem key_shape_is_generated : Gen.IdxLayouts.keyShape =
+    [("order", "param"), ("loop", "for"), ("count", "h8-1"), ("entry:p", "12"), ("stride:p", "12")] := by decide
+
+/-- cas.py: big-endian; `while len(fdata) >= p + 4`, from 0, 4 bytes apart -/
+theorem cas_shape_is_generated : Gen.IdxLayouts.casShape =
+    [("order", ">"), ("loop", "while"), ("count", "len(fdata) >= p + 4"), ("entry:p", "0"), ("stride:p", "4")] := by decide
+
+/-- lctx.py: big-endian; `<field at 8>` entries starting at the position stored in `<field at 16>`, 12 bytes apart -/
+theorem lctx_shape_is_generated : Gen.IdxLayouts.lctxShape =
+    [("order", ">"), ("loop", "for"), ("count", "h8"), ("entry:p", "h16"), ("stride:p", "12")] := by decide
+
+/-- lnam.py: big-endian (`lnam_bit_order = '>'`); the size words at 8 and 12 must agree; `<field at 18>` names from 20; a name is `fdata[p+1 : p+1+len]` read with get_encoding(), the position moves by `len + 1` -/
+theorem lnam_shape_is_generated : Gen.IdxLayouts.lnamShape =
+    [("order", "param"), ("order_symbol", ">"), ("guard:0", "h12 != h8"), ("loop", "for"), ("count", "h18"), ("entry:p", "20"), ("stride:p", "e0+1"), ("slice:0", "fdata[p+1:p+e0+1].decode(get_encoding())")] := by decide
+
+/-- vwlb.py: big-endian; `<field at 0>` records from 2, 4 bytes apart; label = `fdata[mnidx + off_i : mnidx + off_(i+1)]` with `mnidx = 4*n + 6`, read with get_encoding() -/
+theorem vwlb_shape_is_generated : Gen.IdxLayouts.vwlbShape =
+    [("order", ">"), ("loop", "for"), ("count", "h0"), ("entry:p", "2"), ("stride:p", "4"), ("slice:0", "fdata[e2:e6].decode(get_encoding())"), ("derived:e2", "4*h0+6+<e2>"), ("derived:e6", "4*h0+6+<e6>")] := by decide
+
+/-- vwcf.py: big-endian words + one byte; the size word must equal `len(fdata)`; the palette word is read only in the dir4 / dir5 arms -/
+theorem vwcf_shape_is_generated : Gen.IdxLayouts.vwcfShape =
+    [("order", ">,byte"), ("branches", "h2 == 'dir4'|h2 == 'dir5'|else"), ("guard:0", "len(fdata) != h0")] := by decide
 
 /-! ## the property -/
 
